@@ -220,9 +220,16 @@ fn listen_run(rest: &[&str]) -> String {
     let addr = format!("unix:{}", path);
     let stop = stop_at.map(|_| Arc::new(AtomicBool::new(false)));
     let svc = spec.build(false);
-    let t0 = Instant::now();
+    // the clock of the scenario starts when the server has bound its socket (on a busy machine the server thread may be
+    // scheduled late; a client due at 0 ms must not find the socket missing for that reason)
+    let t0_cell: Arc<std::sync::Mutex<Option<Instant>>> = Arc::new(std::sync::Mutex::new(None));
+    let t0_srv = t0_cell.clone();
+    let started = Instant::now();
     let (a2, s2) = (addr.clone(), stop.clone());
+    let tid_cell: Arc<std::sync::Mutex<Option<libc::pthread_t>>> = Arc::new(std::sync::Mutex::new(None));
+    let tid_srv = tid_cell.clone();
     let server = std::thread::spawn(move || {
+        *tid_srv.lock().unwrap() = Some(unsafe { libc::pthread_self() });
         let r = varlink::listen(
             svc,
             &a2,
@@ -233,16 +240,48 @@ fn listen_run(rest: &[&str]) -> String {
                 stop_listening: s2,
             },
         );
-        let t = t0.elapsed().as_millis();
+        let t = t0_srv.lock().unwrap().unwrap_or(started).elapsed().as_millis();
         match r {
             Ok(()) => format!("ok@{}", t),
             Err(e) => format!("{}@{}", format!("{:?}", e.kind()).split('(').next().unwrap_or("?"), t),
         }
     });
+    while !std::path::Path::new(&path).exists() && started.elapsed() < Duration::from_secs(10) && !server.is_finished() {
+        std::thread::sleep(Duration::from_millis(1));
+    }
+    let t0 = Instant::now();
+    *t0_cell.lock().unwrap() = Some(t0);
     let mut hs = Vec::new();
     for h in hist.iter() {
         let p: Vec<&str> = h.split(':').collect();
         let path = path.clone();
+        if p[0] == "signal" {
+            // signal:<at ms>: a handled signal (SIGUSR1, no-op handler, no SA_RESTART) is delivered to the thread that runs listen()
+            let at: u64 = p[1].parse().unwrap();
+            let tc = tid_cell.clone();
+            hs.push(std::thread::spawn(move || -> String {
+                extern "C" fn noop(_: libc::c_int) {}
+                unsafe {
+                    let mut sa: libc::sigaction = std::mem::zeroed();
+                    sa.sa_sigaction = noop as usize;
+                    libc::sigemptyset(&mut sa.sa_mask);
+                    sa.sa_flags = 0;
+                    libc::sigaction(libc::SIGUSR1, &sa, std::ptr::null_mut());
+                }
+                let t = t0.elapsed().as_millis() as u64;
+                if at > t {
+                    std::thread::sleep(Duration::from_millis(at - t));
+                }
+                let tid = *tc.lock().unwrap();
+                if let Some(tid) = tid {
+                    unsafe {
+                        libc::pthread_kill(tid, libc::SIGUSR1);
+                    }
+                }
+                format!("signal@{}", t0.elapsed().as_millis())
+            }));
+            continue;
+        }
         if p[0] == "steady" {
             let (from, until, every): (u64, u64, u64) = (p[1].parse().unwrap(), p[2].parse().unwrap(), p[3].parse().unwrap());
             hs.push(std::thread::spawn(move || -> String {
@@ -325,6 +364,17 @@ fn main() {
                     let svc = spec.build(false);
                     let chunks: Vec<Vec<u8>> = ch.iter().map(|c| unhex(c)).collect();
                     feed(&svc, &chunks)
+                }
+                "feedl" => {
+                    // like feed, with the upgraded handler in line mode (incomplete lines come back as unread bytes)
+                    vharness::UPGRADED_LINES.store(true, std::sync::atomic::Ordering::SeqCst);
+                    let (st, ch) = split_bar(rest);
+                    let spec = SvcSpec::parse(&st);
+                    let svc = spec.build(false);
+                    let chunks: Vec<Vec<u8>> = ch.iter().map(|c| unhex(c)).collect();
+                    let r = feed(&svc, &chunks);
+                    vharness::UPGRADED_LINES.store(false, std::sync::atomic::Ordering::SeqCst);
+                    r
                 }
                 "feedw" => {
                     // feedw <max bytes per write()> <svc..> | chunks
